@@ -61,9 +61,9 @@ func c20PriorityShapes(nStreams int, thorough bool) {
 	withExclusive := thorough
 	weights := []uint8{10, 200}
 	queueStates := 1
-	if thorough {
-		queueStates = 2
-	}
+	// (a third queue state - DATA blocked by a zero window - on all four streams did not finish in 15
+	// minutes on one core; the thorough tier varies it on the last stream only)
+	lastBlocked := thorough
 	cfg := &PriorityWriteSchedulerConfig{MaxClosedNodesInTree: 2, MaxIdleNodesInTree: 2, ThrottleOutOfOrderWrites: vBool("throttle")}
 	e := c20New(2, cfg)
 	vAssume(vAnd(e.sc.flow.n >= 8, e.sc.maxFrameSize >= 8))
@@ -86,7 +86,11 @@ func c20PriorityShapes(nStreams int, thorough bool) {
 	e.checkPriority()
 	ready := 0
 	for _, id := range ids[1:] {
-		switch vRange(vName("queued", int(id)), 0, queueStates) {
+		qs := queueStates
+		if lastBlocked && id == ids[len(ids)-1] {
+			qs = 2
+		}
+		switch vRange(vName("queued", int(id)), 0, qs) {
 		case 0:
 			vAssume(e.ref.streams[id].flow.n >= 8)
 		case 1:
